@@ -353,6 +353,58 @@ def run(ctx):
                               % norm(bad[1])[:60]))
     else:
         ctx.ok('R-MASKKEEP', 'eval value path', where, '%d stores of vardict[key], no mask-dropping conversion' % stores)
+    # ---- R-NSPRIO: in the evaluation namespace file variables win over same-named global attributes
+    ctx.rule('R-NSPRIO', 'eval namespace: a global attribute never replaces a same-named file variable')
+    for rp_, qn, attrsrc in ((FILES, 'PseudoNetCDFFile.eval', 'self'), (FUNCS, 'pncexpr', 'ifile')):
+        f5 = src.mod(rp_).func(qn)
+        w5 = 'src/PseudoNetCDF/%s %s' % (rp_, qn)
+        loops5 = [st for st in iter_stmts(f5.body) if isinstance(st, ast.For) and norm(st.iter) == '%s.ncattrs()' % attrsrc]
+        if not loops5:
+            raise AnalysisError('anchor vanished: attribute loop of %s' % qn)
+        lp5 = loops5[0]
+        kname = lp5.target.id if isinstance(lp5.target, ast.Name) else None
+        stores5 = [st for st in iter_stmts(lp5.body) if isinstance(st, ast.Assign) and isinstance(st.targets[0], ast.Subscript) and norm(st.targets[0].value) == 'vardict']
+        okp = bool(stores5)
+        for st in stores5:
+            par = getattr(st, '_parent', None)
+            guarded = isinstance(par, ast.If) and norm(par.test) == '%s not in vardict' % kname and norm(st.targets[0].slice) == kname
+            okp = okp and guarded
+        if okp:
+            ctx.ok('R-NSPRIO', qn, w5, 'attributes added only under `%s not in vardict`' % kname)
+        else:
+            ctx.violation(Finding('R-NSPRIO', rp_, qn, stores5[0] if stores5 else lp5, 'global attributes are put into the evaluation namespace without the '
+                                  '`not in vardict` guard (or under a different key than the one tested): an attribute silently replaces a same-named variable in the expression'))
+    # ---- R-MASKKEEP on the string templates of mask_vals (functional form; the 'where' template is not judged: it references an undefined name and never runs)
+    mv = fu.func('mask_vals')
+    tmpl = None
+    for st in iter_stmts(mv.body):
+        if isinstance(st, ast.Assign) and norm(st.targets[0]) == 'maskexpr' and isinstance(st.value, ast.BinOp) and isinstance(st.value.op, ast.Mod):
+            tmpl = st
+    if tmpl is None:
+        raise AnalysisError('anchor vanished: mask expression template of mask_vals')
+    # resolve the template text (string constants and local string names)
+    strs = dict((norm(st.targets[0]), const_str(st.value)) for st in iter_stmts(mv.body) if isinstance(st, ast.Assign) and const_str(st.value) is not None)
+    left = const_str(tmpl.value.left)
+    args5 = tmpl.value.right.elts if isinstance(tmpl.value.right, ast.Tuple) else [tmpl.value.right]
+    vals5 = [strs.get(norm(a), 'X') if isinstance(a, ast.Name) else 'X' for a in args5]
+    try:
+        text5 = left % tuple(vals5)
+        tree5 = ast.parse(text5, mode='eval').body
+    except Exception:
+        tree5 = None
+    w6 = 'src/PseudoNetCDF/%s mask_vals' % FUNCS
+    if tree5 is None:
+        ctx.undec('R-MASKKEEP', 'mask_vals template', w6, 'template not parsable')
+    else:
+        for n5 in ast.walk(tree5):
+            for c5 in ast.iter_child_nodes(n5):
+                c5._parent = n5
+        d5 = drops_mask(tree5)
+        if d5 is not None:
+            ctx.violation(Finding('R-MASKKEEP', FUNCS, 'mask_vals', tmpl, 'the masking expression applies %s to the variable: cells that were already masked come back unmasked '
+                                  '(repeated --mask options lose the earlier masks)' % norm(d5)[:50]))
+        else:
+            ctx.ok('R-MASKKEEP', 'mask_vals template', w6, text5)
     ctx.floor('operator handlers', sum(1 for o in ctx.obligations if o['rule'] == 'R-OPTABLE'), 17)
     ctx.floor('mask predicates', sum(1 for o in ctx.obligations if o['rule'] == 'R-MASKTABLE'), 8)
 
